@@ -3,6 +3,7 @@
 mod append_cmd;
 mod boxcar_cmd;
 mod nucleo_cmd;
+mod parsort_cmd;
 mod sched;
 
 fn main() {
@@ -10,6 +11,8 @@ fn main() {
     match args.get(1).map(|s| s.as_str()).unwrap_or("") {
         "append" => append_cmd::run(&args[2]),
         "boxcar" => boxcar_cmd::run(&args[2]),
+        "parsort" => parsort_cmd::run(&args[2]),
+        "parsort-adv" => parsort_cmd::adversary(args[2].parse().expect("N"), args.get(3).map(|s| s == "desc").unwrap_or(false)),
         "nucleo" => nucleo_cmd::run(&args[2]),
         "nucleo-table" => nucleo_cmd::table(),
         _ => {
